@@ -42,7 +42,7 @@ def m_instances(ctx):
          dict(base, syms=["A", "B"], qtys=[1], lev=4, start=8, depth=4, maxord=4, maxact=2)]
     t = [dict(base, depth=6, maxord=6),
          dict(base, prices=[8, 10, 12], depth=5, maxord=5, start=50),
-         dict(base, syms=["A", "B"], qtys=[1, 2], lev=4, start=12, depth=4, maxord=4),
+         dict(base, syms=["A", "B"], qtys=[1, 2], lev=4, start=12, depth=4, maxord=4, maxact=2),
          dict(base, qtys=[1, 2, 3], lev=1, fee=(0, 1), start=40, depth=5, maxord=5)]
     return ctx.pick(q, t)
 
@@ -51,13 +51,13 @@ def r_instances(ctx):
     base = dict(syms=["A"], qtys=[1, 2], prices=[8, 12], lev=2, fee=(1, 16), start=30, maxact=3, dups=False, coc=True)
     q = [dict(base, depth=3, maxord=3, maxact=2), dict(base, qtys=[2], depth=4, maxord=4, maxact=2)]
     t = [dict(base, depth=4, maxord=4),
-         dict(base, syms=["A", "B"], qtys=[1, 2], lev=4, start=14, depth=3, maxord=3),
-         dict(base, qtys=[1, 3], prices=[8, 10, 12], lev=1, fee=(0, 1), start=60, depth=3, maxord=3)]
+         dict(base, syms=["A", "B"], qtys=[1], lev=4, start=14, depth=3, maxord=3),
+         dict(base, qtys=[1, 3], prices=[8, 10, 12], lev=1, fee=(0, 1), start=60, depth=3, maxord=3, maxact=2)]
     return ctx.pick(q, t)
 
 
 def t_specs(ctx, rng, first_id, dups=0.0):
-    n = ctx.pick(120, 2500)
+    n = ctx.pick(120, 2000)
     confs = []
     for lev in (1, 2, 3, 4, 5, 10):
         for fee in ((0, 1), (1, 16), (1, 64)):
@@ -86,7 +86,7 @@ def run(ctx):
     samples = []
     # ---------------------------------------------------------------- M
     for inst in m_instances(ctx):
-        r = tlc.run("Futures", cfg_text=acct.model_cfg(KIND, inst), workers=ctx.pick(8, 16), coverage=ctx.quick or inst["depth"] <= 4,
+        r = tlc.run("Futures", cfg_text=acct.model_cfg(KIND, inst), workers=ctx.pick(8, 16), coverage=ctx.quick,
                     timeout=ctx.pick(600, 1500))
         label = "Futures syms=%d qtys=%s prices=%s L=%d fee=%d/%d start=%d depth=%d" % (
             len(inst["syms"]), inst["qtys"], inst["prices"], inst["lev"], inst["fee"][0], inst["fee"][1], inst["start"], inst["depth"])
